@@ -2,7 +2,7 @@
 (`coverage.explanation`, `assumptions`).  The global trusted base (A1..A6, T1, T6, the VC generator itself) is added by
 the harness to every record."""
 
-ROUNDING = ("A2 is relaxed for get_concentration / parse_concentration / fill_to / _transfer in the rounding-placement "
+ROUNDING = ("A2 is relaxed for get_concentration / parse_concentration / fill_to / dilute / _transfer in the rounding-placement "
             "obligations (every internal rounding returns some number within half a unit of the 10th decimal; accuracy bounds "
             "under a stated scale precondition: containers of at least 1 nL .. 1 uL, physical constants in 10..1000 g/mol and "
             "0.5..3 g/mL); everywhere else A2 stands")
@@ -21,7 +21,11 @@ PLATE_MOD = ("modular: inside plate operations every Container._transfer / remov
 BAKE = ("bake: induction over the step loop, one case per step kind (24 kinds) from an arbitrary symbolic recipe state; "
         "the direct operations are events (callee contracts); plates inside the recipe are 2x2 with one slice form per kind")
 TRACK = ("trackers: executed on abstract step records satisfying the bookkeeping invariant BOOK that the bake "
-         "obligations establish; bounded in the number of step records per case (1..3), unbounded in snapshot contents")
+         "obligations establish; the concrete cases have 1..3 step records; get_substance_used is ALSO proved for a step "
+         "list of arbitrary length by induction over its step loop (obligations inv[step-loop@...].init/.step for one "
+         "arbitrary record per step shape, every variable the body assigns havocked; the code after the loop against "
+         "TOTAL = sum of the specified per-step contributions, which telescopes to the net gain along the BOOK chain: "
+         "paper lemma); unbounded in snapshot contents")
 SOLVE = ("numpy.linalg.solve is axiomatised: if det(A) != 0 it returns the x with A.x = b, otherwise it raises "
          "LinAlgError; the determinant is expanded symbolically for the concrete matrix sizes (<= 4x4)")
 MIX = ("solutions: mixtures are explicit key sets (solute(s), solvent, optionally one other substance / one enzyme): "
